@@ -10,11 +10,24 @@ the set of final outcomes in the canonical form the loom hook in `/repo` prints
 
 scenario = c<credit>-p<polls>[-a<n>|-x]*      outcome = res=S,P;credit=1;wakes=0,1;closed=0;frames=1
 `fixed` = `Penguin.Waker.step` (the repaired code), `pinned` = `Penguin.Waker.stepPinned`.
+
+Several writer threads on one stream (`Model/WakerN`, repaired code only; `pinned` answers `bad-op`):
+
+scenario = c<credit>-w<writers>[-a<n>|-x]*    (every writer thread polls once, as in the loom hook)
+outcome  = res=S,P;credit=0;wakes=0,1;after=1,1;closed=0;frames=1
+  `res` / `wakes` per writer thread, `after` per writer the wake-ups delivered to ANY waker after that
+  writer's poll began.  "Began" is the hook's instrumentation, not an operation of the code: the hook
+  reads its wake-up counter when the writer thread starts to run, which for the threads it spawns
+  (writers 1, 2, …) is a moment of its own before the poll's first atomic operation, and for writer 0
+  (the hook's main thread) lies before any other writer exists.  The driver mirrors that with a
+  `begin` step per spawned writer (writer 0 has begun in the initial state); the model itself has no
+  such step.
 -/
 import Std.Data.HashMap
 import Penguin.Basic.Bytes
 import Penguin.Basic.Loop
 import Penguin.Model.Waker
+import Penguin.Model.WakerN
 
 open Penguin Penguin.Waker
 
@@ -129,26 +142,154 @@ def monitor (sc : Scenario) (o : Outcome) : String :=
   else if o.frames != taken then "frames"
   else "ok"
 
+/-! ### Several writer threads on one stream (`Model/WakerN`) -/
+
+namespace N
+open Penguin.WakerN
+
+/-- `c<credit>-w<writers>[-a<n>|-x]*`: `writers` threads, one poll each. -/
+def parseScenario (s : String) : Option WakerN.Scenario :=
+  match s.splitOn "-" with
+  | c :: w :: rest => do
+    let credit ← (← stripPrefix 'c' c).toNat?
+    let writers ← (← stripPrefix 'w' w).toNat?
+    if writers < 2 then none
+    let actors ← rest.mapM parseActor
+    pure ⟨credit, List.replicate writers 1, actors⟩
+  | _ => none
+
+/-- Exploration state: the model state and, per writer thread, the hook's reading of its wake-up
+    counter when that writer's poll began (`none`: the thread has not started to run). -/
+abbrev XState := WakerN.State × List (Option Nat)
+
+inductive XLabel
+  | begin (w : Nat)
+  | model (l : WakerN.Label)
+
+def xinit (sc : WakerN.Scenario) : XState :=
+  (WakerN.init sc, (List.range sc.writers.length).map fun i => if i = 0 then some 0 else none)
+
+def began (x : XState) (w : Nat) : Bool := (x.2[w]?.join).isSome
+
+def xlabels (x : XState) : List XLabel :=
+  let n := x.1.writers.length
+  let begins := ((List.range n).filter (fun w => !began x w)).map XLabel.begin
+  let ws := ((List.range n).filter (began x)).flatMap fun w => [WakerN.Label.writer w, WakerN.Label.casSpurious w]
+  let ls := (ws ++ (List.range x.1.actors.length).map WakerN.Label.actor).filter (WakerN.enabled x.1)
+  begins ++ ls.map XLabel.model
+
+def xstep (x : XState) : XLabel → XState
+  | .begin w => (x.1, x.2.set w (some x.1.wakeLog.length))
+  | .model l => (WakerN.step x.1 l, x.2)
+
+def xlabelName (x : XState) : XLabel → String
+  | .begin w => s!"w{w}:begin"
+  | .model (.writer w) => s!"w{w}:" ++ (match x.1.writers[w]? with | some wr => pcName wr.pc | none => "?")
+  | .model (.casSpurious w) => s!"w{w}:casSpurious"
+  | .model (.actor i) =>
+    match x.1.actors[i]? with
+    | some a =>
+      let op := match a.pc, a.kind with
+        | .write, .ack _ => "fetchAdd" | .write, .close => "swap" | .wake, _ => "wake" | .done, _ => "done"
+      s!"a{i}:{op}"
+    | none => s!"a{i}:?"
+
+/-- The canonical outcome of a final state (same text as the loom hook prints for `w` scenarios). -/
+def outcomeOf (x : XState) : String :=
+  let s := x.1
+  let idx := List.range s.writers.length
+  let res := joinOrDash (s.writers.map fun w => "".intercalate (w.results.map resultName))
+  let wakes := joinOrDash (idx.map fun i => toString (WakerN.wakesOf s (i, 0)))
+  let after := joinOrDash (idx.map fun i => toString (s.wakeLog.length - (x.2[i]?.join).getD 0))
+  s!"res={res};credit={s.credit};wakes={wakes};after={after};closed={if s.closed then 1 else 0};frames={WakerN.totalSent s}"
+
+/-- Breadth-first exploration of every interleaving, as `explore` above. -/
+partial def explore (sc : WakerN.Scenario) : Nat × List (String × List String) :=
+  let rec go (frontier : List (XState × List String)) (seen : Std.HashMap XState Unit)
+      (outs : Std.HashMap String (List String)) : Nat × List (String × List String) :=
+    match frontier with
+    | [] => (seen.size, outs.toList)
+    | _ =>
+      let (next, seen, outs) := frontier.foldl (init := ([], seen, outs)) fun (next, seen, outs) (x, path) =>
+        let ls := xlabels x
+        if ls.isEmpty then
+          let o := outcomeOf x
+          (next, seen, if outs.contains o then outs else outs.insert o path.reverse)
+        else
+          ls.foldl (init := (next, seen, outs)) fun (next, seen, outs) l =>
+            let x' := xstep x l
+            if seen.contains x' then (next, seen, outs)
+            else ((x', xlabelName x l :: path) :: next, seen.insert x' (), outs)
+      go next.reverse seen outs
+  let x0 := xinit sc
+  go [(x0, [])] ((∅ : Std.HashMap XState Unit).insert x0 ()) ∅
+
+structure Outcome where
+  res : List String
+  credit : Nat
+  wakes : List Nat
+  after : List Nat
+  closed : Bool
+  frames : Nat
+
+def parseOutcome (s : String) : Option Outcome :=
+  match (s.splitOn ";").map (·.splitOn "=") with
+  | [["res", r], ["credit", c], ["wakes", w], ["after", a], ["closed", x], ["frames", f]] => do
+    let wakes ← (parseList w).mapM (·.toNat?)
+    let after ← (parseList a).mapM (·.toNat?)
+    let closed ← (match x with | "0" => some false | "1" => some true | _ => none)
+    pure ⟨parseList r, ← c.toNat?, wakes, after, closed, ← f.toNat?⟩
+  | _ => none
+
+/-- The predicate of `Props/C12` (`…_n` theorems) and `Props/C03` on a FINAL outcome of a scenario with
+    several writers: `no_frame_without_credit_n` (frames never exceed initial + grants),
+    `credit_conservation_n`, frames = `Ready(Some)` polls, `no_lost_wakeup_slot_n` (a writer left
+    `Pending` that could proceed or should fail: a wake-up was delivered after its poll began). -/
+def monitor (sc : WakerN.Scenario) (o : Outcome) : String :=
+  let n := sc.writers.length
+  let obtainable := sc.credit + sc.ackTotal
+  let taken := o.res.count "S"
+  let asleep := (List.range n).any fun i =>
+    o.res[i]? == some "P" && o.after[i]?.getD 0 == 0 && (o.credit > 0 || o.closed)
+  if o.res.length != n || o.wakes.length != n || o.after.length != n then "malformed"
+  else if taken > obtainable || o.frames > obtainable then "no-credit"
+  else if o.credit + taken != obtainable then "conservation"
+  else if o.frames != taken then "frames"
+  else if asleep then "lost-wakeup"
+  else "ok"
+
+end N
+
 def step (_ : Unit) (line : String) : Unit × String :=
   let out :=
     match tokens line with
     | ["outcomes", m, scn] =>
-      match parseMode m, parseScenario scn with
-      | some recheck, some sc =>
+      match parseMode m, parseScenario scn, N.parseScenario scn with
+      | some recheck, some sc, _ =>
         let (n, outs) := explore recheck sc
         " ".intercalate ("ok" :: toString n :: sortStrings (outs.map (·.1)))
-      | _, _ => "bad-op"
+      | some true, none, some sc =>
+        let (n, outs) := N.explore sc
+        " ".intercalate ("ok" :: toString n :: sortStrings (outs.map (·.1)))
+      | _, _, _ => "bad-op"
     | ["schedule", m, scn, o] =>
-      match parseMode m, parseScenario scn with
-      | some recheck, some sc =>
+      match parseMode m, parseScenario scn, N.parseScenario scn with
+      | some recheck, some sc, _ =>
         match (explore recheck sc).2.find? (·.1 == o) with
         | some (_, path) => " ".intercalate ("ok" :: path)
         | none => "none"
-      | _, _ => "bad-op"
+      | some true, none, some sc =>
+        match (N.explore sc).2.find? (·.1 == o) with
+        | some (_, path) => " ".intercalate ("ok" :: path)
+        | none => "none"
+      | _, _, _ => "bad-op"
     | ["monitor", scn, o] =>
       match parseScenario scn, parseOutcome o with
       | some sc, some oc => monitor sc oc
-      | _, _ => "bad-op"
+      | _, _ =>
+        match N.parseScenario scn, N.parseOutcome o with
+        | some sc, some oc => N.monitor sc oc
+        | _, _ => "bad-op"
     | _ => "bad-op"
   ((), out)
 
